@@ -31,6 +31,10 @@ fn run<C: vcore::Check>(c: C, args: vcore::Args) -> i32 {
 
 fn main() {
     let argv: Vec<String> = std::env::args().skip(1).collect();
+    if argv.first().map(|s| s == "dev-reopen-keep").unwrap_or(false) {
+        chk_store::c17::dev_reopen_keep();
+        return;
+    }
     let code = if argv.first().map(|s| s == "--worker").unwrap_or(false) {
         let id = argv.get(1).cloned().unwrap_or_default();
         dispatch!(id.as_str(), worker())
